@@ -989,6 +989,7 @@ pub fn property() -> Property {
                 signature: no_signature,
                 essential: &["short_transfer", "error", "partial_consume", "write_all_failed_midway", "seek", "vectored", "fill_buf"],
                 workers: w,
+                decode: None,
             }),
             Box::new(Gen::<IterCase> {
                 name: "iter",
@@ -999,6 +1000,7 @@ pub fn property() -> Property {
                 signature: no_signature,
                 essential: &["exhausted", "partial_consumption", "next_back", "length_differs_from_items"],
                 workers: w,
+                decode: None,
             }),
             Box::new(Gen::<AsyncCase> {
                 name: "async",
@@ -1009,6 +1011,7 @@ pub fn property() -> Property {
                 signature: no_signature,
                 essential: &["short_transfer", "pending", "partial_consume", "fill_buf", "stream_items"],
                 workers: w,
+                decode: None,
             }),
             Box::new(Gen::<ParCase> {
                 name: "rayon",
@@ -1019,6 +1022,7 @@ pub fn property() -> Property {
                 signature: no_signature,
                 essential: &["parallel_split", "producer_path", "short_circuit", "default_finish"],
                 workers: 4,
+                decode: None,
             }),
         ],
     }
